@@ -116,6 +116,7 @@ type HStep struct {
 	Settle  []HStat  `json:"settle_stats,omitempty"`
 	Closed  bool     `json:"hand_closed"`
 	Wedged  bool     `json:"wedged"`
+	Panic   bool     `json:"panicked,omitempty"`           // the API call panicked (recovered by the harness)
 	ExtInj  bool     `json:"extension_injected,omitempty"` // a deadline extension was served inside the engine's Next step of this attempt
 	Ret     int64    `json:"returned,omitempty"`           // value returned by a deadline extension
 	ResultN int      `json:"result_entries"`               // at settlement: entries of the hand's result
@@ -392,9 +393,21 @@ func (hr *handRun) bystanderLeaves(c *HCase, id int) *HStep {
 	s := HStep{Call: HCall{Player: id, Action: "leave", Why: "bystander"}, Pre: hr.snap()}
 	d.takeEvents()
 	s.Now0 = time.Now().Unix()
-	err := d.te.PlayersLeave([]string{pid(id)})
+	var err error
+	func() {
+		defer func() {
+			if rec := recover(); rec != nil {
+				err = fmt.Errorf("panic: %v", rec)
+				s.Panic = true
+			}
+		}()
+		err = d.te.PlayersLeave([]string{pid(id)})
+	}()
 	s.Now1 = time.Now().Unix()
 	s.Ok = err == nil
+	if err != nil {
+		s.ErrText = err.Error()
+	}
 	s.Post = hr.snap()
 	d.Quiesce(quiesceLimit)
 	s.Quiet = hr.snap()
@@ -419,7 +432,16 @@ func (hr *handRun) attempt(c *HCase, call HCall, await bool) *HStep {
 	}
 	d.be.mu.Unlock()
 	s.Now0 = time.Now().Unix()
-	err := hr.doCall(call)
+	var err error
+	func() {
+		defer func() {
+			if rec := recover(); rec != nil {
+				err = fmt.Errorf("panic: %v", rec)
+				s.Panic = true
+			}
+		}()
+		err = hr.doCall(call)
+	}()
 	s.Now1 = time.Now().Unix()
 	s.Ok = err == nil
 	if err != nil {
@@ -1113,9 +1135,9 @@ func (s HStep) Coq() string {
 		seen[i] = fmt.Sprintf("(%s, %s)", coqEv(e), coqZi(int(s.SeenEnd[i])))
 	}
 	c := s.Call
-	return fmt.Sprintf("mkstep (mkcall %d %s %s %s %v) %s %v %s %s [%s] %d [%s] %s %s %s [%s] %v %v %s %s %d %d %v", c.Player, coqAct(c.Action), coqZi(int(c.Chips)), coqWhy(c.Why), c.FailBE,
+	return fmt.Sprintf("mkstep (mkcall %d %s %s %s %v) %s %v %s %s [%s] %d [%s] %s %s %s [%s] %v %v %s %s %d %d %v %v", c.Player, coqAct(c.Action), coqZi(int(c.Chips)), coqWhy(c.Why), c.FailBE,
 		s.Pre.Coq(), s.Ok, s.Post.Coq(), s.Quiet.Coq(), strings.Join(acts, "; "), s.Errs, strings.Join(be, "; "),
-		coqZi(int(s.Now0)), coqZi(int(s.Now1)), coqZi(int(s.Now2)), strings.Join(seen, "; "), s.Closed, s.Wedged, coqStats(s.Settle), coqZi(int(s.Ret)), s.ResultN, s.HandN, s.ExtInj)
+		coqZi(int(s.Now0)), coqZi(int(s.Now1)), coqZi(int(s.Now2)), strings.Join(seen, "; "), s.Closed, s.Wedged, coqStats(s.Settle), coqZi(int(s.Ret)), s.ResultN, s.HandN, s.ExtInj, s.Panic)
 }
 
 func coqFinal(xs [][2]int64) string {
